@@ -135,7 +135,7 @@ def answer (cfg : Cfg) (line : String) : String :=
 partial def loop (cfg : Cfg) (hin hout : IO.FS.Stream) : IO Unit := do
   let line ← hin.getLine
   if line.isEmpty then return
-  let l := (line.dropRightWhile (fun c => c = '\n' || c = '\r'))
+  let l := (line.trimRight)
   match (l.splitOn " ").filter (· ≠ "") with
   | ["K", a, b] =>
     match unhex a, unhex b with
